@@ -113,6 +113,23 @@ impl Scheduler {
     }
 
     ///
+    /// The wake-up loop of `set_max_threads` with a bound on its iterations (verification builds only)
+    ///
+    #[cfg(desync_verif)]
+    pub fn verif_kick(&self, times: usize) {
+        for _ in 0..times { if !self.schedule_thread() { break; } }
+    }
+
+    ///
+    /// Number of pool threads whose busy flag is set (verification builds only)
+    ///
+    #[cfg(desync_verif)]
+    pub fn verif_busy_count(&self) -> usize {
+        let busy: Vec<_> = self.core.threads.lock().expect("Scheduler threads lock").iter().map(|(busy, _)| Arc::clone(busy)).collect();
+        busy.iter().filter(|b| *b.lock().expect("Busy lock")).count()
+    }
+
+    ///
     /// Number of threads currently owned by the scheduler (verification builds only)
     ///
     #[cfg(desync_verif)]
